@@ -96,6 +96,23 @@ def w1(ctx):
         okl = bool(us) and all(role_mentions_call(c.body.role_of_operand(c.args[0]), "ids") for c in us)
         ctx.check(okl, "usages-over-ids:" + C.fkey(b), "usages are updated for every id in sh.ids()",
                   "the usages update in %s is not driven by the ids() of the e-node being written" % C.short(wid), where_of(b))
+        # ... for EVERY id, the node's own class included: no skip inside the loop over ids() ("a node is not a usage of the class
+        # it lives in" is wrong — a self-referential node depends on its class's slots and symmetries like any parent does, and the
+        # re-queue after a change of the class walks exactly this index)
+        for c in us:
+            if c.body is not b:
+                continue
+            extra = []
+            for e, cond in C.conditions_at(b, c.bb, expand=False) if "expand" in C.conditions_at.__code__.co_varnames else C.conditions_at(b, c.bb):
+                r0 = cond[1] if len(cond) > 1 else None
+                if isinstance(r0, tuple) and r0[0] == "discr":
+                    continue            # the loop's own `next()` test
+                if isinstance(r0, tuple) and r0[0] == "const":
+                    continue
+                extra.append("%s %s" % (cond[0], role_str(r0)[:50] if r0 is not None else ""))
+            ctx.check(not extra, "usages-for-every-id:" + C.fkey(b), "%s updates the usages of every class the node refers to" % C.short(wid),
+                      "%s skips the usages update for some of the classes the e-node refers to (%s): such a node is never re-queued when that class changes in place (a slot becomes redundant, a symmetry is found) and keeps a stale hashcons key — congruences through it are missed" % (C.short(wid), "; ".join(extra)),
+                      where_of(b, c.bb))
         # same key: the key argument of all three mentions the same parameter
         keyparams = []
         for n, cs in by.items():
@@ -555,3 +572,42 @@ def w7(ctx):
 
 
 RULES.append(w7)
+
+
+@rule("W8", doc="the identity element of a class's group is built over the slot set the class stores (and the syntactic slot set second): ProvenPerm::identity(id, <what goes into EClass.slots>, <syn slots>, ..)")
+def w8(ctx):
+    crate = ctx.lib()
+    n = 0
+
+    def norm(r):
+        r = strip_role(r)
+        while isinstance(r, tuple) and r[0] == "call" and r[1] in ("clone", "deref", "borrow", "as_ref", "to_owned") and r[3]:
+            r = strip_role(r[3][0])
+        return role_str(r, 14)
+    for b0 in crate.fns():
+        b = b0
+        ids = [c for c in b.calls if c.callee and c.callee.name == "identity" and "ProvenPerm" in (c.callee.impl_self or "") and len(c.args) >= 3 and not b.blocks[c.bb]["cleanup"]]
+        if not ids:
+            continue
+        stored = set()
+        for bi, si, s in b.statements():
+            if s["k"] != "assign":
+                continue
+            if mir.place_has_field(s["lhs"], C.ECLASS, "slots"):
+                stored.add(norm(b.role_of_rvalue(s["rv"])))
+            rv = s["rv"]
+            if rv["k"] == "agg" and rv.get("adt") == C.ECLASS and "slots" in rv.get("fields", []):
+                stored.add(norm(b.role_of_operand(rv["ops"][rv["fields"].index("slots")])))
+        if not stored:
+            continue
+        for c in ids:
+            n += 1
+            a1, a2 = norm(b.role_of_operand(c.args[1])), b.role_of_operand(c.args[2])
+            ok = a1 in stored
+            ctx.check(ok, "identity-over-stored-slots:" + C.fkey(b0), "%s builds the group identity over the slot set it stores in the class" % C.short(b0.id),
+                      "%s builds the identity of the class's group over %s while the class stores %s (the two set arguments of ProvenPerm::identity have the same type): the identity then acts on slots the class does not have — composing it with a generator fails the compose assertion in `checks` builds, and its proof covers the wrong slots under `explanations`" % (C.short(b0.id), a1[:60], sorted(stored)[0][:60]),
+                      where_of(b, c.bb))
+    ctx.floor("group identities built next to a slot-set store", n, 1)
+
+
+RULES.append(w8)
